@@ -489,6 +489,9 @@ func (x *c14Runner) one(doc *bjson.Node, enc []byte, forceLarge bool, meta int, 
 	perr := core.Guard(func() {
 		out, n, err = replication.CellBytes(buf, pos, replication.TypeJSON, uint16(meta), false)
 	})
+	if perr == "" && err == nil {
+		heldPush(replication.TypeJSON, uint16(meta), out)
+	}
 	mode := "default"
 	if forceLarge {
 		mode = "all-large"
